@@ -69,7 +69,7 @@ def _gen_goal(tape, ctx, flavour, strategy, mode):
             # the very same (clause, weight) pair given twice counts twice
             soft.append(list(soft[tape.draw(len(soft), "soft.dup.which")]))
         return {"kind": "maxsmt", "soft": soft, "real_w": real_w, "signed": False}
-    nt = 1 if k in ("min", "max") else tape.rint(1, 3, "goal.nterms")
+    nt = 1 if k in ("min", "max") else tape.weighted([(2, 1), (3, 2), (3, 3), (2, 4), (1, 5)], "goal.nterms")
     if flavour == "bv":
         w = tape.choice(ctx.bv_widths(), "goal.w")
         sort = bp.BV(w)
